@@ -81,7 +81,8 @@ ConvFrom == [native |-> {"from_array", "from_native"}, tuple |-> {"from_tuple"},
 IterRefOps == {"next", "next_back", "len", "debug"}
 
 ScriptCall(c, forms) == [op |-> c.op, recv |-> c.recv, form |-> forms, arg |-> c.arg,
-                         pick |-> IF c.elems = <<>> THEN -1 ELSE 0]
+                         pick |-> IF c.elems = <<>> THEN -1 ELSE 0,
+                         side |-> IF c.arg = 1 THEN "l" ELSE "r", pform |-> "own"]
 
 StartCall(c, forms) == Call(c) /\ Step(ScriptCall(c, forms)) /\ UNCHANGED nexth
 
@@ -105,6 +106,8 @@ DoCall ==
                \/ \E h2 \in Handles \ {h} :
                     /\ KindOf(h2) = "arr" /\ n + LenOf(h2) <= MaxLen
                     /\ StartCall(C("concat", <<h, h2>>, <<TRUE, TRUE>>, NoneArg, <<>>, n, "arr"), <<"own", "own">>)
+               \* zip with a plain array of another element type, tracked operand on either side (arg = side)
+               \/ \E sd \in {0, 1} : IdsLeft >= n /\ StartCall(C("zipx", <<h>>, <<TRUE>>, sd, <<>>, n, "arr"), <<"own">>)
                \/ \E o \in {"map", "fold"} : IdsLeft >= n /\ StartCall(C(o, <<h>>, <<TRUE>>, NoneArg, <<>>, n, "arr"), <<"own">>)
                \/ /\ IdsLeft >= n
                   /\ StartCall(C("clone", <<h>>, <<FALSE>>, NoneArg, <<>>, n, "arr"), <<"ref">>)
@@ -136,7 +139,8 @@ DoCb ==
     /\ IF op.name \in {"clone", "iter_clone"}
        THEN CloneStep(IF op.name = "clone" THEN op.srcs[1][op.k + 1]
                       ELSE SetMin(SeqRange(op.srcs[1]) \ DOMAIN op.cmap), NewId)
-       ELSE Cb([k |-> op.k, idx |-> op.k, args |-> CbArgs(op.name, op.srcs, op.n, op.k), acc |-> op.acc, pv |-> -1])
+       ELSE Cb([k |-> op.k, idx |-> op.k, args |-> CbArgs(op.name, op.srcs, op.n, op.k), acc |-> op.acc,
+                pv |-> IF op.name = "zipx" THEN op.k ELSE -1])
     /\ UNCHANGED <<hist, nexth>>
 
 \* the harness closure lets go of every by-value argument and returns a fresh element
